@@ -28,6 +28,7 @@ func c01Alphabet(tier string) []seqSym {
 	core := []seqSym{
 		sy("SET", "k1", "a", "POINT", "1", "2"),
 		sy("SET", "k1", "b", "POINT", "3", "4", "5"),
+		sy("SET", "k1", "a", "POINT", "1", "2", "0"),
 		sy("SET", "k2", "a", "BOUNDS", "1", "2", "3", "4"),
 		sy("SET", "k1", "a", "STRING", "hello"),
 		sy("SET", "k1", "b", "STRING", `{"x":1}`),
@@ -61,6 +62,8 @@ func c01Alphabet(tier string) []seqSym {
 	}
 	more := []seqSym{
 		sy("SET", "k1", "a", "HASH", "9tbnwg"),
+		sy("SET", "k1", "b", "POINT", "3", "4", "-0"),
+		sy("SET", "k2", "a", "BOUNDS", "1", "2", "1", "2"),
 		sy("SET", "k1", "a", "OBJECT", gPoly),
 		sy("SET", "k2", "a", "OBJECT", gLine),
 		sy("SET", "k1", "a", "FIELD", "j", `{"x":1}`, "POINT", "1", "2"),
